@@ -13,7 +13,7 @@ from ..core import Prop, Result
 from ..simfs import SimFS, Policy
 
 READ_INPUTS = ["ok", "ok_wrapped", "ok_big", "nosections", "hdrerr", "reshape", "decode", "lidar", "empty",
-               "missing", "bom", "one_line", "utf16", "latin1", "textcol", "hdrerr_late", "lidar_bom", "decode_late", "directory"]
+               "missing", "bom", "one_line", "utf16", "latin1", "textcol", "hdrerr_late", "lidar_bom", "decode_late", "directory", "gzipped"]
 READ_KW = [
     {},
     {"engine": "normal"},
@@ -24,6 +24,8 @@ READ_KW = [
     {"ignore_header_errors": True},
     {"autodetect_encoding_chars": None},
     {"autodetect_encoding": "chardet", "autodetect_encoding_chars": 20},
+    {"encoding": "no-such-codec"},
+    {"encoding": "utf-8", "encoding_errors": "no-such-handler"},
 ]
 WRITE_INPUTS = ["ok", "ok_nan", "no_null", "no_vers", "no_wrap", "bad_fmt", "empty", "ragged", "no_strt"]
 WRITE_KW = [{}, {"version": 1.2}, {"version": 2.0, "wrap": True}, {"wrap": False, "fmt": "%.3f"},
@@ -67,6 +69,9 @@ def read_input_bytes(kind, n, m):
         b = docmodel.join(lines).encode("utf-8")
         i = b.rfind(b"\n", 0, len(b) - 40)
         return b[:i] + b" \xff\xfe\xfa" + b[i:]
+    if kind == "gzipped":
+        import gzip
+        return gzip.compress(docmodel.join(docmodel.simple_doc(n, m)).encode("utf-8"), mtime=0)     # a compressed LAS file
     if kind == "lidar":
         return b"LASF" + bytes(range(0, 200))
     if kind == "empty":
@@ -161,6 +166,11 @@ class C20(Prop):
         if call.startswith("read"):
             sc["input"] = g.choice(READ_INPUTS)
             sc["kw"] = dict(g.choice(READ_KW))
+            sc["suffix"] = g.choice(["", "", "", ".gz", ".gz", ".txt", ".LAS", ".bz2", ".zip"])
+            if sc["input"] == "gzipped":
+                sc["suffix"] = g.choice([".gz", ".gz", ".las.gz", ""])
+                sc["kw"] = dict(g.choice([{}, {"encoding": "no-such-codec"}, {"encoding": "utf-8"}, {"encoding": "utf-8", "encoding_errors": "no-such-handler"},
+                                          {"autodetect_encoding": False}]))
             if sc["input"] in ("decode", "decode_late"):
                 sc["kw"] = g.choice([{"encoding": "utf-8", "encoding_errors": "strict"}, {"encoding_errors": "strict"},
                                      {"encoding_errors": "strict", "autodetect_encoding": False}, {"encoding": "ascii", "encoding_errors": "strict"}])
@@ -198,12 +208,13 @@ class C20(Prop):
         exc = None
         with fs:
             if call.startswith("read"):
+                inp = IN + sc.get("suffix", "")        # the file name may look like another kind of file (.gz, .txt, none)
                 data = read_input_bytes(kind, sc["n"], sc["m"]) if kind != "directory" else None
                 if kind == "directory":
-                    fs.dirs.add(IN)                  # the path names a directory
+                    fs.dirs.add(inp)                 # the path names a directory
                 if data is not None:
-                    fs.store(IN, data)
-                src = pathlib.Path(IN) if call == "read_path" else IN
+                    fs.store(inp, data)
+                src = pathlib.Path(inp) if call == "read_path" else inp
                 las = lasio.LASFile()
                 try:
                     if call == "read_ctor":
